@@ -62,3 +62,19 @@ Fixpoint reaches (es : list entry) (k : nat) (i : nat) : bool :=
             | None => false
             end
   end.
+
+(* dulwich/pack.py Pack.resolve_object — the read path: walk down the chain of
+   bases from entry i, remembering the offsets already visited; a base that is
+   no entry of the pack (get_ref fails) or one that was visited already is an
+   error; the walk ends at a full object.  Some (Some d): resolved through d
+   deltas; Some None: error; None: out of fuel. *)
+Fixpoint chase (es : list entry) (fuel : nat) (seen : list nat) (i : nat) : option (option nat) :=
+  match fuel with
+  | O => None
+  | S f => match nth_error es i with
+           | None => Some None
+           | Some EFull => Some (Some (length seen - 1))
+           | Some (EDelta b) => if existsb (Nat.eqb b) seen then Some None else chase es f (b :: seen) b
+           end
+  end.
+Definition read_entry (es : list entry) (i : nat) : option (option nat) := chase es (S (length es)) [i] i.
